@@ -30,7 +30,12 @@ RULE = ("K = 2..4 users with unequal Nr/Nt/Ns, raw channel matrix supplied by "
         "Noise values are also passed as int / np.int64 / np.float64; the "
         "aligned generator uses zero-forcing joint precoders with identity "
         "filters and no noise (denominators at rounding level or exactly zero) "
-        "and requires non-negative, non-NaN SINRs. ")
+        "and requires non-negative, non-NaN SINRs.  The solver object's own "
+        "calc_Q(k) and calc_remaining_interference_percentage(k) are decided "
+        "against the summed link covariances (plus noise, as the channel object "
+        "documents) and their Ns[k] smallest eigenvalues; after a "
+        "re-initialisation the path loss is re-applied only half of the time "
+        "(it stays in force otherwise). ")
 ASSUMPTIONS = ["relative tolerance 256 eps n (1 + SINR): the library forms the "
                "denominator by subtracting the own-stream covariance",
                "K >= 2 with generic precoders, so denominators are positive"]
@@ -157,8 +162,10 @@ def case_channel(ctx, rng, idx):
             else:
                 mu.init_from_channel_matrix(raw.copy(), Nr.copy(), Nt.copy(), K)
             kinds.append("init")
-            if pl is not None:
-                # (re-)apply the path loss in force for the same configuration
+            if pl is not None and rng.random() < 0.5:
+                # re-apply the path loss in force; otherwise it simply stays in
+                # force for the new matrix (same configuration of users)
+                kinds.append("pathloss-reapplied")
                 if extint:
                     mu.set_pathloss(pl.copy(), pl_ext.copy())
                 else:
@@ -370,6 +377,39 @@ def case_solver(ctx, rng, idx):
             wcap = float(sum(np.sum(np.log2(1 + np.asarray(g, dtype=float))) for g in got))
             ctx.within("sum-capacity", abs(cap - wcap), 1e-12 * (1 + abs(wcap)),
                        "solver", d(got=cap, want=wcap))
+    # the interference covariance the solver reports, and the share of it that
+    # lies in the Ns[k] least-interfered directions (Cadambe eq. 30)
+    for k in range(K):
+        Wq = np.zeros((Nr[k], Nr[k]), dtype=complex)
+        scale_q = 0.0
+        for j in range(K):
+            if j != k:
+                A = Hkj[k][j] @ fullF[j]
+                Wq = Wq + A @ herm(A)
+                scale_q += fro(Hkj[k][j]) ** 2 * fro(fullF[j]) ** 2
+        # (the channel object the solver delegates to documents this matrix as
+        # interference PLUS noise whenever a noise variance is set)
+        Wq = Wq + (noise or 0.0) * np.eye(Nr[k])
+        scale_q += float(noise or 0.0)
+        okc, Q = ctx.call("covariance-matrices", solver.calc_Q, k, detail=tag)
+        if not okc:
+            continue
+        Q = np.asarray(Q)
+        tolq = 256 * EPS * nterms * scale_q
+        ctx.within("covariance-matrices", fro(Q - Wq), tolq, "solver.calc_Q",
+                   d(user=k, got=Q, want=Wq))
+        ctx.within("covariance-matrices", fro(Q - herm(Q)), tolq, "solver.calc_Q-hermitian",
+                   d(user=k, got=Q))
+        evq = np.linalg.eigvalsh((Wq + herm(Wq)) / 2)
+        okc, pk = ctx.call("covariance-matrices", solver.calc_remaining_interference_percentage,
+                           k, detail=tag)
+        tr = float(np.real(np.trace(Wq)))
+        if okc and tr > 0:
+            wpk = float(np.sum(np.abs(evq[:Ns[k]])) / tr)
+            # eigenvalue perturbation <= ||dQ||, relative to the trace
+            ctx.within("covariance-matrices", abs(float(pk) - wpk),
+                       4 * Ns[k] * tolq / tr + 64 * EPS, "remaining-interference-share",
+                       d(user=k, got=pk, want=wpk))
     # full_F as the solver reports it must be what was installed
     okc, sfF = ctx.call("solver-sinr", lambda: solver.full_F, detail=tag)
     if okc:
